@@ -82,7 +82,9 @@ class SrcPrinter:
                 return [ind + "await cohdl.true"]
             if s[1] == "false":
                 return [ind + "await cohdl.false"]
-            return [ind + f"await {cond_src(s[1])}"]
+            if s[1][0] == "in":
+                return [ind + f"await {cond_src(s[1])}"]
+            return [ind + f"await cohdl.expr({cond_src(s[1])})"]
         if k in ("break", "continue", "return"):
             return [ind + k]
         if k == "call":
